@@ -304,7 +304,11 @@ func ppValue(v slip.Object) (pv slip.Object) {
 	switch tv := v.(type) {
 	case slip.List:
 		if 0 < len(tv) {
-			pv = slip.List{slip.Symbol("quote"), tv}
+			if isLiteral(tv) {
+				pv = slip.List{slip.Symbol("quote"), tv}
+			} else {
+				pv = ppList(tv)
+			}
 		}
 	case slip.Symbol:
 		// A keyword evaluates to itself, any other symbol would be taken
@@ -326,6 +330,42 @@ func ppValue(v slip.Object) (pv slip.Object) {
 		pv = ppInstance(tv)
 	}
 	return
+}
+
+// isLiteral returns true if the value can be written inside a quote, a list
+// of numbers, strings, symbols, and such. An instance, a hash-table, or any
+// other object that has to be built can not.
+func isLiteral(v slip.Object) bool {
+	switch tv := v.(type) {
+	case nil, slip.Symbol, slip.String, slip.Character, slip.Number:
+		return true
+	case slip.List:
+		for _, e := range tv {
+			if !isLiteral(e) {
+				return false
+			}
+		}
+		return true
+	case slip.Tail:
+		return isLiteral(tv.Value)
+	case *slip.Vector:
+		return isLiteral(slip.List(tv.Elements()))
+	}
+	return v == slip.True
+}
+
+// ppList builds a form that makes the list when not all the elements of the
+// list can be quoted.
+func ppList(list slip.List) slip.Object {
+	if _, ok := list[len(list)-1].(slip.Tail); ok {
+		return list.LoadForm()
+	}
+	form := make(slip.List, len(list)+1)
+	form[0] = slip.ListSymbol
+	for i, v := range list {
+		form[i+1] = ppValue(v)
+	}
+	return form
 }
 
 func ppInstance(inst *flavors.Instance) slip.Object {
